@@ -10,7 +10,7 @@
 (* alive, including after queued work ran.                                      *)
 EXTENDS Naturals, Sequences, FiniteSets, TLC, Json, Randomization
 
-CONSTANTS NSec, NVec, NCand
+CONSTANTS NSec, NVec, NCand, NRtp
 VARIABLE vec
 
 Section == [kind : {"audio", "video", "application", "text"},
@@ -71,7 +71,18 @@ CandVec == [kind : {"cand"},
             typ : {"host", "srflx", "relay", "bogus", "missing"}, tail : {"none", "raddr", "raddr-noport", "tcptype", "ufrag", "dangling-key", "generation-x"},
             mid : {"ok", "nil", "unknown"}, line : {"0", "nil", "999"}, prefix : {"candidate:", "a=candidate:", ""}]
 
-Init == \/ vec \in RandomSubset((NVec * 5) \div 10, GoodSdpVec)
+\* packets a connected peer sends: RTP on the negotiated stream, its repair stream or an unknown one, with every
+\* combination of header options and the boundary payload lengths (an RTX payload starts with a 2-byte OSN);
+\* RTCP of every type the receiving side handles, well-formed and with one defect
+RtpVec == [kind : {"rtp"}, ssrc : {"primary", "rtx", "unknown"}, pt : {"primary", "rtx", "unknown"},
+           cc : {0, 1, 15}, ext : {"none", "onebyte", "twobyte", "empty"}, pad : {"none", "ok", "overlong", "zero", "all"},
+           plen : {0, 1, 2, 3, 40, 1100}, marker : BOOLEAN]
+RtcpVec == [kind : {"rtcp"}, ptype : {"sr", "rr", "sdes", "bye", "nack", "pli", "fir", "remb", "twcc", "unknown"},
+            shape : {"ok", "short", "length-over", "length-under", "count-over", "zero-ssrc", "compound-garbage"}]
+
+Init == \/ vec \in RandomSubset(NRtp, RtpVec)
+        \/ vec \in RtcpVec
+        \/ vec \in RandomSubset((NVec * 5) \div 10, GoodSdpVec)
         \/ vec \in RandomSubset((NVec * 2) \div 10, SdpVec)
         \/ vec \in RandomSubset((NVec * 3) \div 10, AnswerVec)
         \/ vec \in AnswerOne
